@@ -4,6 +4,7 @@ import Model.Geometry
 import Model.Canon
 import Model.Imports
 import Model.Match
+import Model.Embed
 /-!
 # Line-protocol driver: one JSON case per input line, one JSON verdict per output line.
 -/
@@ -293,7 +294,16 @@ def runSem (j : Json) : Json :=
       let inputsJson := Json.arr (core.nodes.toList.filterMap (fun nd => match nd with
         | .input name ty v => some (Json.mkObj [("name", name), ("ty", ty), ("lit", Json.num (JsonNumber.fromInt v.toInt))])
         | _ => none)).toArray
+      -- C13, source level: the program with the compiler's signal names on its untyped values denotes the same
+      -- (theorem Facto.retype_nodeVal holds for every retyping that passes this check)
+      let renamed : Array CNode := core.nodes.map (fun nd =>
+        match nd, nd.ty? with
+        | .select .., _ => nd
+        | _, some ty => if isImplicit ty then nd.setTy (ren ty) else nd
+        | _, none => nd)
+      let retypeOk := retypeCheck core.nodes renamed
       Json.mkObj [("id", id), ("elab", "ok"), ("stateful", Json.bool stateful), ("outputs", outputsJson), ("inputs", inputsJson), ("match", matchJson),
+        ("retype_ok", Json.bool retypeOk), ("n_implicit", (core.nodes.toList.filter (fun nd => match nd.ty? with | some ty => isImplicit ty | none => false)).length),
         ("n_nodes", core.nodes.size), ("n_obs", obs.length), ("n_inputs", inputs.length),
         ("obs", Json.arr (obs.map (fun o => Json.str o.name)).toArray),
         ("unsupported", Json.arr (unsupported.map Json.str).toArray),
@@ -334,6 +344,27 @@ def runGeo (j : Json) : Json :=
       ("connectable", Json.arr (g.connectable.map (fun (a, b) => Json.arr #[num a, num b])).toArray),
       ("unpowered_inside", Json.arr (g.unpoweredInside.map num).toArray), ("entities", ents)]
 
+/-- source-level embedding of one program in another (C12: P in an interleaving of P and Q) -/
+def runEmbed (j : Json) : Json :=
+  let id := jgetD j "id"
+  match elabProgram (decodeProgram (jgetD j "ast")), elabProgram (decodeProgram (jgetD j "ast2")) with
+  | .ok P, .ok P' =>
+    let (ι, μ, ε) := findEmbedding P P'
+    -- P with the types its nodes carry inside P' (implicit types are numbered program-wide), then node for node
+    let P2 := retypeAlong ι P.nodes P'.nodes
+    let ok := retypeCheck P.nodes P2 && embedsCheck ι μ ε P2 P'.nodes
+    -- every top-level name of P must be the same-named result of P'
+    let names := P.named.toList.filter (·.topLevel)
+    let matched := names.filter (fun nm =>
+      match P'.named.toList.find? (fun nm' => nm'.name == nm.name && nm'.topLevel) with
+      | some nm' => ι nm.node == nm'.node
+      | none => false)
+    -- cells: same write rules up to the embedding is part of the node check only for reads; report the counts
+    Json.mkObj [("id", id), ("elab", "ok"), ("embeds", Json.bool ok), ("names", names.length), ("names_matched", matched.length),
+      ("nodes", P.nodes.size), ("nodes2", P'.nodes.size)]
+  | .error e, _ => Json.mkObj [("id", id), ("elab", Json.mkObj [("error", e.cls.toString), ("msg", e.msg)])]
+  | _, .error e => Json.mkObj [("id", id), ("elab", Json.mkObj [("error", e.cls.toString), ("msg", e.msg)])]
+
 def handle (line : String) : String :=
   match Json.parse line with
   | .error e => (Json.mkObj [("error", s!"bad json: {e}")]).compress
@@ -341,6 +372,7 @@ def handle (line : String) : String :=
     match jstrD j "mode" "sem" with
     | "sem" => (runSem j).compress
     | "wf" => (runWf j).compress
+    | "embed" => (runEmbed j).compress
     | "geo" => (runGeo j).compress
     | "imports" =>
       let files : List (String × String) := match jgetD j "files" with
